@@ -118,10 +118,10 @@ impl Monitor for C04 {
         "C04"
     }
     fn gens(&self, tier: Tier) -> Vec<(&'static str, u64)> {
-        vec![("runs", tier.pick(21_000, 420_000)), ("exact_fit", tier.pick(6_000, 120_000))]
+        vec![("runs", tier.pick(21_000, 420_000)), ("exact_fit", tier.pick(6_000, 120_000)), ("big_batches", tier.pick(600, 12_000))]
     }
     fn rule(&self) -> &'static str {
-        "case i -> objective (i mod 7), optimizer kind (i/7 mod 5: SGD, SGDM, Adam, AdamW, RMSprop with random decay / dampening / momentum / centred), N in 1..23, B from {1,2,3,5,7,N-1,N,N+1,64} (so B=1, B not dividing N and B>N occur in every block of nine cases), E in 1..5, validation data in every second case, pools of 1..8 threads; random network of dense/conv/deconv/max-pool layers ending in a dense layer, pairwise different samples. (a) the hooked Forward/Update event log of the learn() call (and, in every third case, of a second learn() call on the same network) must match the trace grammar: per epoch the consecutive groups of B samples, each sample's forward pass exactly once and all before the group's single Update, Update step number = epoch index, then every validation sample once; nothing else. (b) a twin trainer recomputes the run: per-sample gradients from the library's own forward + hooked backward at the twin's weights, summed in sample order, one step of the documented update rule per group; final weights must agree within 1e-4 x (|w| + distance travelled) + 1e-6 and the per-epoch loss must equal the mean over groups of the mean per-sample loss. exact_fit: the same two checks on dense networks whose first layer is a ReLU layer with positive weights and negative bias followed by bias-free layers, with runs of samples that are fitted exactly (negative inputs, zero targets: loss 0, gradient 0) between ordinary samples, objectives AE / MAE / MSE: a group whose samples are all fitted exactly still receives its optimizer step (momentum, moment estimates and weight decay keep acting). Distinct = distinct (network, optimizer, N, B, E) descriptors."
+        "case i -> objective (i mod 7), optimizer kind (i/7 mod 5: SGD, SGDM, Adam, AdamW, RMSprop with random decay / dampening / momentum / centred), N in 1..23, B from {1,2,3,5,7,N-1,N,N+1,64} (so B=1, B not dividing N and B>N occur in every block of nine cases), E in 1..5, validation data in every second case, pools of 1..8 threads; random network of dense/conv/deconv/max-pool layers ending in a dense layer, pairwise different samples. (a) the hooked Forward/Update event log of the learn() call (and, in every third case, of a second learn() call on the same network) must match the trace grammar: per epoch the consecutive groups of B samples, each sample's forward pass exactly once and all before the group's single Update, Update step number = epoch index, then every validation sample once; nothing else. (b) a twin trainer recomputes the run: per-sample gradients from the library's own forward + hooked backward at the twin's weights, summed in sample order, one step of the documented update rule per group; final weights must agree within 1e-4 x (|w| + distance travelled) + 1e-6 and the per-epoch loss must equal the mean over groups of the mean per-sample loss. big_batches: the same two checks with N in {65,66,70,100,127..130,150,200,257} and B in {N, N-1, 64, 65, 70, 100, 128, 129, random 65..N} (groups larger than the library's parallel chunk of 64, mostly not a multiple of it), small networks. exact_fit: the same two checks on dense networks whose first layer is a ReLU layer with positive weights and negative bias followed by bias-free layers, with runs of samples that are fitted exactly (negative inputs, zero targets: loss 0, gradient 0) between ordinary samples, objectives AE / MAE / MSE: a group whose samples are all fitted exactly still receives its optimizer step (momentum, moment estimates and weight decay keep acting). Distinct = distinct (network, optimizer, N, B, E) descriptors."
     }
     fn assumptions(&self) -> Vec<&'static str> {
         vec![
@@ -133,11 +133,27 @@ impl Monitor for C04 {
     fn run(&self, gen: &str, seed: u64, idx: u64, _tier: Tier) -> Out {
         let mut rng = Rng::stream(seed, gen, idx);
         let exact = gen == "exact_fit";
+        let out_big = std::cell::Cell::new(false);
         let obj = if exact { [Obj::AE, Obj::MAE, Obj::MSE][(idx % 3) as usize] } else { OBJS[(idx % 7) as usize] };
         let opt = gen_optimizer(&mut rng, ((idx / 7) % 5) as usize);
-        let n = 1 + ((idx / 35) % 23) as usize;
+        let big = gen == "big_batches";
+        let n = if big { *rng.pick(&[65usize, 66, 70, 100, 127, 128, 129, 130, 150, 200, 257]) } else { 1 + ((idx / 35) % 23) as usize };
         let bsel = ((idx / 3) % 9) as usize;
-        let batch = match bsel {
+        let batch = if big {
+            // groups larger than the library's parallel chunk of 64, mostly not a multiple of it
+            match bsel {
+                0 => n,
+                1 => n - 1,
+                2 => 65,
+                3 => 70,
+                4 => 100,
+                5 => 128,
+                6 => 129,
+                7 => 64,
+                _ => rng.range(65, n),
+            }
+        } else {
+            match bsel {
             0 => 1,
             1 => 2,
             2 => 3,
@@ -147,8 +163,9 @@ impl Monitor for C04 {
             6 => n,
             7 => n + 1,
             _ => 64,
+            }
         };
-        let epochs = rng.range(1, 5);
+        let epochs = if big { rng.range(1, 2) } else { rng.range(1, 5) };
         let with_val = idx % 2 == 0;
         let tolerance: i32 = if idx % 10 == 4 { 1 } else if idx % 10 == 8 { 2 } else { 100 };
         let threads = *rng.pick(&[1usize, 2, 4, 8]);
@@ -156,8 +173,12 @@ impl Monitor for C04 {
         let mut o = NetOpts::standard();
         o.max_depth = 3;
         o.min_depth = 1;
-        o.max_count = 30;
-        o.max_extent = 5;
+        o.max_count = if big { 12 } else { 30 };
+        o.max_extent = if big { 3 } else { 5 };
+        if big {
+            o.max_depth = 2;
+            out_big.set(true);
+        }
         o.end_dense = Some(if softmax { Act::Softmax } else if obj.probabilistic() { Act::Sigmoid } else { *rng.pick(&[Act::Linear, Act::Tanh, Act::Sigmoid]) });
         let cfg = if exact {
             // first layer ReLU with positive weights and negative bias: all-negative inputs give an
@@ -227,6 +248,9 @@ impl Monitor for C04 {
         let val = DataSet::new(val.sh, val.xs.clone(), val.ts.clone());
         let desc = format!("{} | {} | {} | N{} B{} E{} val{} threads{}", cfg.describe(), opt.describe(), obj.name(), n, batch, epochs, if with_val { nv } else { 0 }, threads);
         let mut out = Out::new(desc.clone());
+        if out_big.get() {
+            out.count("runs_with_groups_larger_than_64_samples", 1);
+        }
         out.cover("n_b_relation", format!("{}", if batch == 1 { "B=1" } else if batch > n { "B>N" } else if n % batch == 0 { "B|N" } else { "B not dividing N" }));
         out.cover("optimizer_x_objective", format!("{}/{}", opt.name(), obj.name()));
         out.cover("architectures", cfg.architecture());
@@ -503,6 +527,7 @@ impl Monitor for C04 {
         agg.require(agg.set_size("n_b_relation") == 4, "N/B relations not all exercised".into());
         agg.require(agg.set_size("optimizer_x_objective") == 35, format!("{} of 35 optimizer x objective combinations", agg.set_size("optimizer_x_objective")));
         agg.require(agg.count("exactly_fitted_groups_after_the_optimizer_state_may_be_non_zero") >= 500, "too few exactly fitted groups".into());
+        agg.require(agg.count("runs_with_groups_larger_than_64_samples") >= 300, "too few runs with large groups".into());
         agg.require(agg.count("learn_runs") >= 1500, format!("{} learn runs judged", agg.count("learn_runs")));
     }
 }
